@@ -116,6 +116,9 @@ class _ValWorld(World):
     if tg(base) == 'ptsof' and isinstance(idx, tuple) and len(idx) == 2 and \
             idx[0] == slice(None, None, None) and idx[1] is None:
       return S('pts3', base[1], base[2])
+    if tg(base) == 'scalof' and isinstance(idx, tuple) and len(idx) == 2 and \
+            idx[0] == slice(None, None, None) and idx[1] is None:
+      return S('pts2', base[1], base[2])
     return NotImplemented
 
   def compare(self, it, op, a, b, node):
@@ -182,6 +185,10 @@ class _ValWorld(World):
       self.pre_calls += 1
       a = args[0]
       if tg(a) == 'col':
+        if sc.get('prebad'):
+          # a preprocessor that yields ONE NUMBER per indicator (1-D data):
+          # the formed "tuples" are 2-D
+          return S('scalof', a[1], a[2])
         return S('ptsof', a[1], a[2])
       if tg(a) == 'arr' and a[1] == ('raw', 1):
         return S('arr', 'points', 'formed')
@@ -296,6 +303,8 @@ class _ValWorld(World):
                 [c[1] for c in cols] == list(range(sc['t'])) and \
                 len(set(c[2] for c in cols)) == 1:
           return S('arr', 'tuples', 'formed')
+        if all(tg(c) == 'pts2' for c in cols):
+          return S('arr', 'badtuples', 'formed')
         return S('arr', 'badtuples', 'formed')
       if short in ('abs', 'absolute') and args and args[0] in (
               S('ychecked'), S('y')):
@@ -328,6 +337,10 @@ def _scenarios():
           if y is None and kind in ('tuples', 'classic'):
             # a single feature: formed data that looks like a column
             out.append(dict(base, d=1))
+          if y is None and kind == 'tuples' and ndim == 2 and pre:
+            # 1-D data behind the indicators: one number per indicator
+            for mf in (1, 0, 3):
+              out.append(dict(base, prebad=True, minf=mf))
           if y is None:
             out.append(dict(base, strict='nonfinite'))
             out.append(dict(base, minf=5))
@@ -433,6 +446,8 @@ def _expected(sc):
     return bad
   if sc['y'] == 'mismatch':
     return bad
+  if sc.get('prebad'):
+    return bad          # formed tuples are not 3-D: documented ValueError
   if sc['kind'] == 'tuples':
     if sc['ndim'] == 3:
       data = ('raw', 3)
@@ -516,6 +531,8 @@ def rule_validation_table(repo, rep):
     want = _expected(sc)
     tag = ', '.join('%s=%s' % (k, sc[k]) for k in (
         'kind', 'ndim', 'pre', 'y', 't', 'd', 'tuple_size', 'minf', 'strict'))
+    if sc.get('prebad'):
+      tag += ', preprocessor yields one number per indicator'
     clause = 'malformed-rejected' if want[0] == 'raise' else 'well-formed-' \
         'accepted'
     it = Interp(repo, f, w)
